@@ -7,9 +7,23 @@ import ast
 import copy
 
 
-def extract_block(prog, qname: str, new_name: str, start_pred, n_stmts_pred, params: list[str], result: str):
+def _yield_rewriter(yields_to):
+    class Y(ast.NodeTransformer):
+        def visit_FunctionDef(self, n):
+            return n
+        def visit_Expr(self, n):
+            if isinstance(n.value, ast.Yield) and n.value.value is not None:
+                call = ast.Call(func=ast.Attribute(value=ast.Name(id=yields_to, ctx=ast.Load()), attr="append", ctx=ast.Load()),
+                                args=[n.value.value], keywords=[])
+                return ast.copy_location(ast.Expr(value=call), n)
+            return n
+    return Y()
+
+
+def extract_block(prog, qname: str, new_name: str, start_pred, n_stmts_pred, params: list[str], result: str, yields_to: str | None = None):
     """Find, inside function `qname`, the first statement list in which `start_pred(stmt)` holds for some statement;
-    take statements from there while `n_stmts_pred(stmt)`; wrap them as `def new_name(params): ...; return result`."""
+    take statements from there while `n_stmts_pred(stmt)`; wrap them as `def new_name(params): ...; return result`.
+    With `yields_to`, a statement `yield e` of the block becomes `<yields_to>.append(e)` (as in extract_loop_body)."""
     fn = prog.func(qname)
     found = None
     for node in ast.walk(fn):
@@ -29,7 +43,12 @@ def extract_block(prog, qname: str, new_name: str, start_pred, n_stmts_pred, par
             break
     if not found:
         raise KeyError(f"extraction from {qname}: block not found (contract attachment lost)")
-    body = [copy.deepcopy(s) for s in found] + [ast.Return(value=ast.parse(result, mode="eval").body)]
+    body = [copy.deepcopy(s) for s in found]
+    if yields_to:
+        body = [_yield_rewriter(yields_to).visit(s) for s in body]
+        if any(isinstance(x, (ast.Yield, ast.YieldFrom)) for st in body for x in ast.walk(st)):
+            raise KeyError(f"extraction from {qname}: a yield of the block is not a plain `yield e` statement (contract attachment lost)")
+    body = body + [ast.Return(value=ast.parse(result, mode="eval").body)]
     f = ast.FunctionDef(name=new_name, args=ast.arguments(posonlyargs=[], args=[ast.arg(arg=p) for p in params], kwonlyargs=[],
                                                           kw_defaults=[], defaults=[]), body=body, decorator_list=[], type_params=[])
     ast.fix_missing_locations(f)
